@@ -21,6 +21,9 @@ func main() { hc.Main("C10", run) }
 
 func run(c *hc.Ctx) {
 	pool := []*canvas.Path{}
+	if c.Only == "" || c.Only == "regress" {
+		regress(c)
+	}
 	if c.Only == "" || c.Only == "corr" {
 		pool = corr(c)
 	}
@@ -278,7 +281,9 @@ func corr(c *hc.Ctx) []*canvas.Path {
 				a, b := res[s.i].Copy(), res[s.j].Copy()
 				before = append([]float64{}, b.Data()...)
 				msg = hc.Try(func() { p = a.Append(b).Copy() })
-				prim = false
+				// Append preserves strict well-formedness (theorem append_strict, /repo 83194f5): two
+				// consecutive MoveTos after Append are a failure again
+				prim = primitiveOnly[s.i] && primitiveOnly[s.j]
 				taint = taints[s.i]
 				if taint == "" {
 					taint = taints[s.j]
@@ -294,7 +299,7 @@ func corr(c *hc.Ctx) []*canvas.Path {
 			}
 			if s.head[0] != 'E' {
 				c.Evals++
-				validate(c, p, false, histReplay(segs, s), taint)
+				validate(c, p, prim, histReplay(segs, s), taint)
 			}
 			follow := -1
 			nops := c.Intn(9)
